@@ -56,6 +56,12 @@ const OPS_FULL: &[&[u8]] = &[
     b"SYST:ERR?;:SYST:ERR:NEXT?\n",
     b"SYST:ERR:NEXT?;COUN?\n",
     b"SYST:ERR:COUN?;:V 'x'\n",
+    // two faults in one message: both are queued
+    b"V 300;:V 'x'\n",
+    b"CE1;:OK?\n",
+    // wrong parameter count on the built-in queries: one error, nothing read
+    b"SYST:ERR? 1\n",
+    b"SYST:ERR:COUN? 0\n",
 ];
 
 const OPS_SMALL: &[&[u8]] = &[b"SYST:ERR?\n", b"SYST:ERR:COUN?\n", b"V 300\n", b"CE1\n"];
@@ -85,9 +91,10 @@ fn describe(text: &'static [u8]) -> Op {
         } else {
             prefix_path.clear();
         }
+        let has_params = alone.contains(&b' ');
         let m = match head_s.as_str() {
-            "SYST:ERR?" | "SYSTEM:ERROR:NEXT?" | "SYST:ERR:NEXT?" => Micro::Pop,
-            "SYST:ERR:COUN?" => Micro::Count,
+            "SYST:ERR?" | "SYSTEM:ERROR:NEXT?" | "SYST:ERR:NEXT?" if !has_params => Micro::Pop,
+            "SYST:ERR:COUN?" if !has_params => Micro::Count,
             _ => {
                 let mut msg = alone.clone();
                 msg.push(b'\n');
